@@ -845,6 +845,33 @@ def weave_fn(src, item, rules, rw, spec=None, result_name=None, loops=None, inse
             if n < 1 or n > len(st):
                 raise ExtractError("anchor lost: loop %d stmt %d of fn %s" % (k, n, item.name))
             add(st[n - 1][0] if p[4] == "before" else st[n - 1][1], "\n" + text + "\n")
+        elif p[0] == "match" and len(p) >= 5 and p[2] == "arm":
+            # match:M:arm:K:start|end  |  match:M:arm:K:stmt:N:before|after   (M-th `match` keyword of the fn body in
+            # source order, K-th arm of it; the arm body must be a block)
+            ms = _find_matches(toks, bo + 1, bc)
+            M, K = int(p[1]), int(p[3])
+            if M < 1 or M > len(ms):
+                raise ExtractError("anchor lost: match %d of fn %s (has %d)" % (M, item.name, len(ms)))
+            o_, c_ = _match_body(toks, ms[M - 1], bc)
+            arms = match_arms(toks, o_, c_)
+            if K < 1 or K > len(arms):
+                raise ExtractError("anchor lost: match %d arm %d of fn %s (has %d arms)" % (M, K, item.name, len(arms)))
+            pl, ar, bl, bh = arms[K - 1]
+            if toks[bl].text != "{":
+                raise ExtractError("match %d arm %d of fn %s is not a block" % (M, K, item.name))
+            ac = match_close(toks, bl)
+            if p[4] == "start":
+                add(bl + 1, "\n" + text + "\n")
+            elif p[4] == "end":
+                add(ac, "\n" + text + "\n")
+            elif p[4] == "stmt" and len(p) == 7:
+                st = top_level_statements(toks, bl, ac)
+                n = int(p[5])
+                if n < 1 or n > len(st):
+                    raise ExtractError("anchor lost: match %d arm %d stmt %d of fn %s" % (M, K, n, item.name))
+                add(st[n - 1][0] if p[6] == "before" else st[n - 1][1], "\n" + text + "\n")
+            else:
+                raise ExtractError("bad position %s" % pos)
         else:
             raise ExtractError("bad position %s" % pos)
         _count(rw, "R3.proof_insert")
